@@ -32,6 +32,10 @@ Definition show_frame (s : slice) (f : frame) : string :=
     ; "P:" ++ show_view (f_offP f) (frame_payload s f)
     ; "H:" ++ show_bool (frame_has_ip f) ].
 
+(* error class of a Parse error: the sentinel it wraps (never the text) *)
+Definition show_errclass (e : err) : string := "err:" ++ show_err e.
+Definition show_rerr (e : rerr) : string := match e with RLen => "err:EFrameLen" | RParse => "err:EParseFrame" end.
+
 Definition show_host (h : option (bytes * bytes)) : string :=
   match h with
   | Some (m, ip) => "host:" ++ tok_of_bytes m ++ "/" ++ tok_of_bytes ip
@@ -42,7 +46,7 @@ Definition show_host (h : option (bytes * bytes)) : string :=
 Definition show_parse (c : cfg) (s : slice) : string :=
   match parse c s with
   | Ok f => show_frame s f
-  | Err _ => "err:any"
+  | Err e => show_errclass e
   | Panic => "panic"
   | Fuel => "fuel"
   end.
@@ -52,7 +56,7 @@ Definition show_parse_full (c : cfg) (s : slice) : string :=
   match parse c s with
   | Ok f => join " " [ show_frame s f; "sm:6,6"; "dm:0,6"; show_host (f_host f)
                      ; "L:" ++ (match frame_log s f with Ok _ => "ok" | _ => "panic" end) ]
-  | Err _ => "err:any"
+  | Err e => show_errclass e
   | Panic => "panic"
   | Fuel => "fuel"
   end.
@@ -83,7 +87,7 @@ Definition show_ref_view (n : nat) (o : option nat) : string :=
 
 Definition show_ref (n : nat) (r : ref_result) : string :=
   match r with
-  | RErr => "err:any"
+  | RErr e => show_rerr e
   | ROk r =>
       join " "
         [ "ok"; dec_of_N (r_id r)
@@ -111,7 +115,7 @@ Definition show_alias (c : cfg) (s : slice) : string :=
                      ; "U:" ++ show_view (f_offU f) (frame_udp s f)
                      ; "T:" ++ show_view (f_offT f) (frame_tcp s f)
                      ; "P:" ++ show_view (f_offP f) (frame_payload s f) ]
-  | Err _ => "err:any"
+  | Err e => show_errclass e
   | Panic => "panic"
   | Fuel => "fuel"
   end.
@@ -119,7 +123,7 @@ Definition show_alias (c : cfg) (s : slice) : string :=
 Definition show_alias_ref (b : bytes) : string :=
   let n := List.length b in
   match ref_decode b with
-  | RErr => "err:any"
+  | RErr e => show_rerr e
   | ROk r => join " " [ "ok"; "sm@6"; "dm@0"
                       ; "E:" ++ show_ref_view n (Some 0%nat)
                       ; "4:" ++ show_ref_view n (r_ip4 r)
